@@ -167,6 +167,56 @@ theorem sampleRepl_mem {vin : List τ} : ∀ (k : Nat) (draws : List Nat) (out :
                   exact List.mem_of_getElem? he
             · exact hm y hy
 
+section Zip
+variable {β γ : Type}
+theorem zip_set_set : ∀ (ys : List β) (zs : List γ) (pos : Nat) (b : β) (c : γ),
+    (ys.set pos b).zip (zs.set pos c) = (ys.zip zs).set pos (b, c)
+  | [], _, _, _, _ => by simp
+  | _ :: _, [], _, _, _ => by simp
+  | y :: ys, z :: zs, 0, _, _ => by simp
+  | y :: ys, z :: zs, pos + 1, b, c => by simp [zip_set_set ys zs pos b c]
+
+theorem swapPop_zip : ∀ (v : List β) (w : List γ) (pos : Nat), v.length = w.length →
+    swapPop (v.zip w) pos = (swapPop v pos).zip (swapPop w pos) := by
+  intro v w pos hl
+  by_cases hv : v = []
+  · subst hv
+    have : w = [] := List.length_eq_zero_iff.mp hl.symm
+    subst this; rfl
+  · have hw : w ≠ [] := by intro h; subst h; simp at hl; exact hv hl
+    obtain ⟨ys, b, rfl⟩ : ∃ ys b, v = ys ++ [b] := ⟨v.dropLast, v.getLast hv, (List.dropLast_append_getLast hv).symm⟩
+    obtain ⟨zs, c, rfl⟩ : ∃ zs c, w = zs ++ [c] := ⟨w.dropLast, w.getLast hw, (List.dropLast_append_getLast hw).symm⟩
+    have hl' : ys.length = zs.length := by simpa using hl
+    have hz : (ys ++ [b]).zip (zs ++ [c]) = ys.zip zs ++ [(b, c)] := by
+      rw [List.zip_append hl']; rfl
+    unfold swapPop
+    rw [hz]
+    simp only [List.getLast?_append, List.getLast?_singleton, Option.some_or]
+    by_cases hp : pos < ys.length
+    · have hp2 : pos < zs.length := by omega
+      have hp3 : pos < (ys.zip zs).length := by simp; omega
+      rw [List.set_append_left _ _ hp, List.set_append_left _ _ hp2, List.set_append_left _ _ hp3]
+      simp only [List.dropLast_concat]
+      rw [zip_set_set]
+    · have e1 : (ys ++ [b]).set pos b = ys ++ [b] := by
+        rw [List.set_append]; simp only [hp, if_false]
+        cases h : pos - ys.length with
+        | zero => simp
+        | succ n => simp
+      have e2 : (zs ++ [c]).set pos c = zs ++ [c] := by
+        rw [List.set_append]; simp only [show ¬ pos < zs.length by omega, if_false]
+        cases h : pos - zs.length with
+        | zero => simp
+        | succ n => simp
+      have e3 : (ys.zip zs ++ [(b, c)]).set pos (b, c) = ys.zip zs ++ [(b, c)] := by
+        rw [List.set_append]; simp only [show ¬ pos < (ys.zip zs).length by simp; omega, if_false]
+        cases h : pos - (ys.zip zs).length with
+        | zero => simp
+        | succ n => simp
+      rw [e1, e2, e3]
+      simp only [List.dropLast_concat]
+end Zip
+
 end Pick
 
 /-! ## weighted picks: structure (any scalar type, any draws) -/
